@@ -100,6 +100,150 @@ def _judge(n, pairs, got, full_mult=True):
     return None
 
 
+
+# ---------------------------------------------------------------- abstract cell covers through the real cross-chunk merge
+def _real_friends(n, rows, cells):
+    """the REAL chunks.friendsoffriends (cross-chunk union-find) on an abstract cover: `cells` is a list of bands, each a
+    list of cells, each a list of point indices; closeness comes from `rows` through the real class `groups`."""
+    from pydl.pydlutils.spheregroup import chunks, groups
+
+    class AbstractChunks(chunks):
+        def __init__(self):
+            pass
+
+        def chunkfriendsoffriends(self, ra, dec, chunkList, linkSep):
+            idx = [int(ra[k]) for k in chunkList]
+            coords = np.array(idx, dtype='d').reshape(1, len(idx))
+
+            def sep(a, b):
+                return 0.0 if (rows[int(a[0])] >> int(b[0])) & 1 else 1.0
+            return groups(coords, 0.5, sep)
+    a = AbstractChunks()
+    a.nDec = len(cells)
+    a.nRa = [len(b) for b in cells]
+    a.chunkList = cells
+    try:
+        out = a.friendsoffriends(np.arange(n, dtype='d'), np.zeros(n), 0.5)
+    except Exception as e:
+        return {'err': core.exc_kind(e), 'msg': str(e)[:200]}
+    return {'in': [int(x) for x in out[0]], 'mult': [int(x) for x in out[1]], 'first': [int(x) for x in out[2]],
+            'next': [int(x) for x in out[3]], 'ng': int(out[4])}
+
+
+def _random_cover(rng, n, rows):
+    """a cover satisfying CoverFoF by construction: every point in >= 1 cell, every close pair shares a cell,
+    no point twice in a cell; cells grouped into bands in a random visiting order"""
+    k = rng.randrange(2, 9)
+    cells = [set() for _ in range(k)]
+    home = [rng.randrange(k) for _ in range(n)]
+    for i in range(n):
+        cells[home[i]].add(i)
+    for i in range(n):
+        for j in range(i + 1, n):
+            if (rows[i] >> j) & 1 and not any(i in c and j in c for c in cells):
+                r = rng.random()
+                if r < 0.4:
+                    cells[home[i]].add(j)
+                elif r < 0.8:
+                    cells[home[j]].add(i)
+                else:
+                    c = rng.randrange(k)
+                    cells[c].update((i, j))
+    for _ in range(rng.randrange(0, n // 2 + 1)):     # margins: extra memberships
+        cells[rng.randrange(k)].add(rng.randrange(n))
+    flat = []
+    for c in cells:
+        m = list(c)
+        rng.shuffle(m)
+        flat.append(m)
+    rng.shuffle(flat)
+    bands, i = [], 0
+    while i < len(flat):
+        w = rng.randrange(1, 4)
+        bands.append(flat[i:i + w])
+        i += w
+    return bands
+
+
+def _hook_case(rng):
+    """the shape that defeats a one-hop root lookup: labels a, b, x with x -> b, then b -> a, then a cell holding only
+    x-labelled points (plus random relabelling of the points)"""
+    # points: 0,1 (piece a)  2,3 (piece b)  4,5 (tail x)  chain 1-2 joins a and b, 3-4 joins b and x, 4-5 inside x
+    edges = [(0, 1), (2, 3), (3, 4), (4, 5), (1, 2)]
+    cells = [[0, 1], [2, 3], [3, 4], [1, 2], [4, 5]]
+    extra = rng.randrange(0, 4)
+    n = 6 + extra
+    for e in range(extra):
+        a = 6 + e
+        b = rng.randrange(0, a)
+        if rng.random() < 0.7:
+            edges.append((a, b))
+        cells[rng.randrange(len(cells))].append(a) if rng.random() < 0.5 else cells.append([a, b])
+    perm = list(range(n))
+    rng.shuffle(perm)
+    rows = _rows_of_edges(n, [(perm[a], perm[b]) for a, b in edges])
+    cs = [[perm[v] for v in dict.fromkeys(c)] for c in cells]
+    for i in range(n):       # every point somewhere, every edge covered
+        if not any(perm[i] in c for c in cs):
+            cs.append([perm[i]])
+    for a, b in edges:
+        if not any(perm[a] in c and perm[b] in c for c in cs):
+            cs.append([perm[a], perm[b]])
+    bands, i = [], 0
+    while i < len(cs):
+        w = rng.randrange(1, 3)
+        bands.append(cs[i:i + w])
+        i += w
+    return n, rows, bands
+
+
+def _merge(ctx, cases=None, oracle_only=False):
+    rng = ctx.rng
+    if cases is None:
+        cases = []
+        for _ in range(ctx.n(3000, 60000)):
+            if rng.random() < 0.15:
+                n, rows, bands = _hook_case(rng)
+                kind = 'hook'
+            else:
+                n = rng.randrange(2, 15)
+                kind, rows = _random_graph(rng, n)
+                bands = _random_cover(rng, n, rows)
+            cases.append({'stream': 'merge', 'kind': kind, 'n': n, 'rows': rows, 'cells': bands})
+    model = [None] * len(cases)
+    if not oracle_only:
+        lines = [{'p': 'C05', 'op': 'friends', 'g': [c['n']] + c['rows'],
+                  'chunks': [cell for band in c['cells'] for cell in band if cell]} for c in cases]
+        model = core.driver_parallel(lines, workers=8, chunk=2000)
+    for c, m in zip(cases, model):
+        impl = _real_friends(c['n'], c['rows'], c['cells'])
+        ctx.seen(c)
+        ctx.count('merge:' + c['kind'])
+        ctx.count('merge:cells=%d' % sum(len(b) for b in c['cells']))
+        cmp = {k: v for k, v in impl.items() if k != 'msg'}
+        if m is not None and cmp != m and not ('err' in cmp and 'err' in m):
+            ctx.disagree('merge', c, cmp, m)
+        if 'err' in impl:
+            ctx.violate('merge:exception:' + impl['err'], 'chunks.friendsoffriends raised %s (%s) on a valid cover' % (impl['err'], impl.get('msg')), c)
+            continue
+        # oracle: the partition (numbering is canonicalised later by spheregroup) is the set of connected components
+        root = _uf(c['n'], _pairs_of_rows(c['n'], c['rows']))
+        g = impl['in']
+        bad = None
+        for a in range(c['n']):
+            for b in range(a + 1, c['n']):
+                if (root[a] == root[b]) != (g[a] == g[b]):
+                    bad = ('merge:partition:' + ('split' if root[a] == root[b] else 'merged'),
+                           'points %d and %d: chain-connected=%s but labels %d, %d' % (a, b, root[a] == root[b], g[a], g[b]))
+                    break
+            if bad:
+                break
+        if not bad and impl['ng'] != len(set(root)):
+            bad = ('merge:ngroups', 'nGroups %d for %d components' % (impl['ng'], len(set(root))))
+        if bad:
+            ctx.violate(bad[0], bad[1], c)
+
+
 # ---------------------------------------------------------------- abstract graphs through the real class `groups`
 def _real_groups(n, rows):
     """rows[i] bit j = close(i, j).  The real class, driven through its callable `separation`."""
@@ -613,6 +757,7 @@ def _shrink_sphere(c, sig):
 def run(ctx):
     ok = core.audit(ctx, LEAN_MODULES, THEOREMS)
     _graphs(ctx)
+    _merge(ctx)
     _sphere(ctx)
     if not ok or ctx.disagreements:
         # proof or correspondence broken: directed search for a failing input on the real code alone
